@@ -1,6 +1,6 @@
 \* witness
 CONSTANTS
-  Objs = {1, 2, 3}
+  Objs = {1, 2, 3, 8}
   Types = {"P", "D"}
   Loads <- MC_Loads
   Streams = {4}
